@@ -341,6 +341,7 @@ def is_scalar(t):
 class Program:
     def __init__(self):
         self.records = {}      # cname -> {'fields': [(name, irtype)], 'bases': [cname], 'qual': str}
+        self.static_ids = set()
         self.functions = {}    # cname -> Function
         self.rules = {}        # rule name -> count
         self.used_types = []   # types needing C declarations, in dependency order
@@ -390,6 +391,8 @@ class Program:
         u = AstUnit(self, tu, flt, workdir)
         self.units.append(u)
         for parent, n in u.funcs:
+            if n.get('storageClass') == 'static':
+                self.static_ids.add(n['id'])         # in-class declaration of a static member function
             has_body = any(isinstance(c, dict) and c.get('kind') == 'CompoundStmt' for c in n.get('inner', []))
             if not has_body or n.get('_pattern'):
                 continue
@@ -1005,7 +1008,8 @@ class FnTranslator:
     def translate(self):
         n = self.node
         params = []
-        is_method = n['kind'] in ('CXXMethodDecl', 'CXXConstructorDecl', 'CXXConversionDecl') and n.get('storageClass') != 'static'
+        is_method = (n['kind'] in ('CXXMethodDecl', 'CXXConstructorDecl', 'CXXConversionDecl') and n.get('storageClass') != 'static'
+                     and n.get('previousDecl') not in self.prog.static_ids)
         rec = None
         if is_method:
             rec = mangle(self.parent)
@@ -2058,6 +2062,21 @@ class FnTranslator:
             return ('var', nm, t)
         while n0['kind'] in ('ImplicitCastExpr', 'CXXFunctionalCastExpr') and n0.get('castKind') in ('NoOp', 'ConstructorConversion'):
             n0 = self.strip(self.inner(n0)[0])
+        if n0['kind'] == 'InitListExpr' and t[0] == 'struct':
+            self.prog.need_type(t)
+            rec = self.prog.records.get(t[1])
+            inits = self.inner(n0)
+            if rec is None or rec.get('bases') or len(inits) > len(rec['fields']):
+                self.err(n0, 'aggregate initialisation of %r' % (t,))
+            nm = self.tmp(t)
+            self.pre.append(('decl', nm, t, None))
+            for k, (fname, ft) in enumerate(rec['fields']):
+                if not is_scalar(ft):
+                    self.err(n0, 'aggregate initialisation with non-scalar member %s' % fname)
+                v = self.expr(inits[k]) if k < len(inits) else ('const', ft, 0)
+                self.pre.append(('assign', ('field', ('var', nm, t), fname, ft), v))
+            self.rule('aggregate initialisation {a, b, ...}: one assignment per member in declaration order')
+            return ('var', nm, t)
         if n0['kind'] in ('CXXConstructExpr', 'CXXTemporaryObjectExpr'):
             args = self.inner(n0)
             if len(args) == 1 and self.T(args[0]) == t and n0.get('ctorType', {}).get('qualType', '').count(t[1] if t[0] == 'struct' else '~') >= 1 and self.strip(args[0])['kind'] not in ('CXXConstructExpr', 'CXXTemporaryObjectExpr'):
